@@ -579,6 +579,11 @@ func computeLoadClasses(f *ssa.Function, c *loadClassCache) {
 					}
 					ak := addrKeyNoClass(a)
 					if ak == rootKey || ak == li.key || AddrRoot(a) == li.root && li.root != nil {
+						// a callee with a visible body that stores to no field of that name
+						// (nor hands its pointers on) cannot write the cell
+						if sc := cc.StaticCallee(); sc != nil && !cc.IsInvoke() && len(sc.Blocks) > 0 && !mayWriteField(sc, fieldOfAddr(li.ld.X), 0, map[*ssa.Function]bool{}) {
+							continue
+						}
 						ws = append(ws, in)
 					}
 				}
@@ -617,6 +622,71 @@ func computeLoadClasses(f *ssa.Function, c *loadClassCache) {
 			}
 		}
 	}
+}
+
+// fieldOfAddr: the innermost struct field an address goes through ("" if none).
+func fieldOfAddr(a ssa.Value) string {
+	for {
+		switch x := a.(type) {
+		case *ssa.FieldAddr:
+			return fieldName(x.X.Type(), x.Field)
+		case *ssa.IndexAddr:
+			a = x.X
+		default:
+			return ""
+		}
+	}
+}
+
+// mayWriteField: f (or a callee with a visible body, depth <= 3) stores to a
+// struct field named name, or calls something without a visible body while
+// holding pointers (conservatively a writer).
+func mayWriteField(f *ssa.Function, name string, depth int, seen map[*ssa.Function]bool) bool {
+	if name == "" || depth > 3 {
+		return true
+	}
+	if seen[f] {
+		return false
+	}
+	seen[f] = true
+	w := false
+	Instrs(f, func(in ssa.Instruction) {
+		if w {
+			return
+		}
+		switch x := in.(type) {
+		case *ssa.Store:
+			if fieldOfAddr(x.Addr) == name {
+				w = true
+			}
+		case ssa.CallInstruction:
+			cc := x.Common()
+			if _, isB := cc.Value.(*ssa.Builtin); isB {
+				return
+			}
+			hasPtr := false
+			for _, a := range cc.Args {
+				if _, ok := a.Type().Underlying().(*types.Pointer); ok {
+					hasPtr = true
+				}
+			}
+			if !hasPtr && !cc.IsInvoke() {
+				return
+			}
+			sc := cc.StaticCallee()
+			if cc.IsInvoke() || sc == nil || len(sc.Blocks) == 0 {
+				// unknown body: only a writer if it could reach the struct (pointer handed on)
+				if hasPtr {
+					w = true
+				}
+				return
+			}
+			if mayWriteField(sc, name, depth+1, seen) {
+				w = true
+			}
+		}
+	})
+	return w
 }
 
 // loadUnstable reports whether the condition depends on a load that two
